@@ -212,12 +212,17 @@ def obligations(tier):
     out = []
 
     def add(arb, n, name, tk):
-        covers = ["default", "input"] if arb != "weighted" else ["default", "weighted"]
-        if arb == "trusted" and n == 2:
-            covers += ["truth-tie", "truth-decides"]
-        if arb == "priority":
-            covers += ["all-importance-zero"]
-        out.append(Ob(name, h, dict(arb=arb, n=n, tkinds=tk), hang_s=240, budget=300 if quick else 900, covers=covers, max_fail_keys=1,
+        # an input whose truth is False can never exceed the default truth: a shard of only-False inputs
+        # can reach the default outcome only (the switch arbiter ignores truth)
+        can_qualify = arb == "switch" or any(k != "false" for kinds in tk for k in kinds)
+        covers = ["default"]
+        if can_qualify:
+            covers += ["input"] if arb != "weighted" else ["weighted"]
+            if arb == "trusted" and n == 2:
+                covers += ["truth-tie", "truth-decides"]
+            if arb == "priority":
+                covers += ["all-importance-zero"]
+        out.append(Ob(name, h, dict(arb=arb, n=n, tkinds=tk), hang_s=240, budget=300 if quick else 2400, covers=covers,
                       bounds=dict(inputs=n, importance=[0, IMAX], value=[-2, 2], truth_kinds_per_input=tk,
                                   quarter_truth="k/4, k in [-2,6]", int_truth=[-1, 2], default_truth="k/4, k in [0,4]")))
 
@@ -225,8 +230,9 @@ def obligations(tier):
         for n in (1, 2):
             add(arb, n, "%s/n%d" % (arb, n), [TK_ALL] * n)
         if not quick:
-            # three inputs: one shard per truth kind of the first two inputs
+            # three inputs: one shard per combination of truth kinds
             for k0 in TK_3:
                 for k1 in TK_3:
-                    add(arb, 3, "%s/n3/%s-%s" % (arb, k0, k1), [[k0], [k1], TK_3])
+                    for k2 in TK_3:
+                        add(arb, 3, "%s/n3/%s-%s-%s" % (arb, k0, k1, k2), [[k0], [k1], [k2]])
     return out
